@@ -162,7 +162,7 @@ def validate_table(ctx, facts, cfg):
                             okp = False
                             break
                 if okp:
-                    taken.append(hcanon(x, env))
+                    taken.append(core.inline_calls(hcanon(x, env), facts))
         except Unknown as e:
             ctx.violation(R, 'foreign-atom', 'Rate::validate branches on `%s`, which is not supports(o,r) or a zero/parity test of shard_bytes' % e, site=fn.span, fn=fn.path, cfg=cfg)
             return
